@@ -279,7 +279,7 @@ fn main() {
     let mut rng = Rng(seed.wrapping_mul(0x9E3779B97F4A7C15) | 1);
     match mode {
         "cmp" => {
-            let u = universe(3);
+            let u = universe(if big { 4 } else { 3 });
             let mut k = seed as usize;
             for x in &u {
                 for y in &u {
